@@ -98,7 +98,7 @@ def harness(u, inst, cap, checked):
   unsigned char *view = g + 1, *pay = g + 1 + LSZ; const unsigned char *opay = old + 1 + LSZ;
   u64 L = ref_rd(view, LSZ, %(be)d);
   VASSUME(L <= CAP);
-  IN_BYTES(s, 4); IN(u32, k); IN(u64, pos); IN(u64, pos2); IN(u64, cnt); IN(u8, v); IN(u32, which);
+  IN_BYTES(s, 4); IN(u32, k); IN(u64, pos); IN(u64, pos2); IN(u64, cnt); IN(u8, v); SELECT(which);   /* one solver query per operation (-DVERIF_WHICH=k) */
   VASSUME(k <= 3); VASSUME(pos <= L); VASSUME(pos2 <= L); VASSUME(cnt <= CAP);
   unsigned char exp[CAP]; _Bool chk[CAP]; u64 NL = L; i64 eret = -2, ret = -2;
   for (unsigned i = 0; i < CAP; i++) { exp[i] = opay[i]; chk[i] = 1; }
@@ -173,6 +173,11 @@ def harness(u, inst, cap, checked):
     return hgen.harness([u], b)
 
 
+OPS = ["push_back", "pop_back", "insert_value", "insert_count_value", "insert_forward_range", "insert_input_range", "insert_ilist", "erase_pos", "erase_range", "resize", "resize_value",
+       "resize_default_init", "assign_count_value", "assign_iterators", "assign_ilist", "assign_string", "assign_range", "clear", "observers", "insert_aliasing_value", "push_back_aliasing",
+       "resize_aliasing_value", "assign_aliasing_value", "assign_single_pass_iterators", "insert_single_pass_iterators"]
+
+
 def wide_len_harness(u, inst):
     """operations that touch only the length prefix, from a state whose length is ANYWHERE in the length type (the payload is not in the buffer: none of these operations may access it)"""
     (I, v, l, en, lsz, be) = inst
@@ -214,14 +219,17 @@ def build(ctx):
             plan.append((std, "checked", allinst))
         plan.append(("17", "unchecked", allinst))
     for std, mode, sel in plan:
-        # split into units of 6 instantiations to keep each IR file moderate
-        for j in range(0, len(sel), 6):
-            chunk = sel[j:j + 6]
+        # one instantiation per unit: every query parses only the code it needs (there is one query per operation)
+        for j in range(0, len(sel), 1):
+            chunk = sel[j:j + 1]
             u = ctx.lower("c13", cpp(chunk), std=std, mode=mode)
             for inst in chunk:
-                hs.append(P.Harness("%s_%s_cxx%s" % (inst[0], mode, std), harness(u, inst, cap, mode == "checked"), [u], unwind=cap + 3, cap=ctx.q(300, 900),
-                                    desc="dynamic_array_ref<char,%s,%s,%s>: push_back/pop_back/insert x6/erase x2/resize x3/assign x4/assign_string/assign_range/clear + observers, one step from any state, vs. vector model" % (inst[1], inst[2], "BE" if inst[5] else "LE"),
-                                    bounds={"CAP": cap, "source_len": "0..3", "std": "c++" + std, "build": mode}))
+                text = harness(u, inst, cap, mode == "checked")
+                for k, opname in enumerate(OPS):
+                    # one query per operation: a change that makes one operation expensive to decide cannot starve the verdicts on the others
+                    hs.append(P.Harness("%s_op%02d_%s_%s_cxx%s" % (inst[0], k, opname, mode, std), text, [u], unwind=cap + 3, cap=ctx.q(300, 900), defines=["VERIF_WHICH=%d" % k],
+                                        desc="dynamic_array_ref<char,%s,%s,%s>: %s, one step from any state, vs. vector model (length prefix, payload, returned iterator, frame, no handler)" % (inst[1], inst[2], "BE" if inst[5] else "LE", opname),
+                                        bounds={"CAP": cap, "source_len": "0..3", "std": "c++" + std, "build": mode, "operation": opname}))
                 hs.append(P.Harness("%s_widelen_%s_cxx%s" % (inst[0], mode, std), wide_len_harness(u, inst), [u], unwind=10, cap=ctx.q(120, 600), extra_flags=["--no-standard-checks"],
                                     desc="dynamic_array_ref<char,%s,%s,%s>: pop_back / resize(n, default_init) / clear / size / empty / end with the length prefix over the WHOLE range of its type" % (inst[1], inst[2], "BE" if inst[5] else "LE"),
                                     bounds={"length": "full range of the length type (< 2^48)", "n": "full range", "std": "c++" + std, "build": mode}))
